@@ -88,3 +88,17 @@ check("C17",
       "bounded command alphabet; commands are sh scripts; return_files is a tuple; trusted: TLC, sh",
       "TLA+ specs (JobBind, JobRun) model-checked with TLC; spec->code replay of every generated operation order / job",
       "DESIGN.md 4/C17", modules=("JobBind", "MCJobBind", "JobRun", "MCJobRun"))
+
+check("C05",
+      "TLC exhausts MolEdit.tla (3-4 harness-created atom identities with fixed element/label incl. a duplicated label, "
+      "library-created hydrogens and attachment points, <=2-3 live atoms; actions add_atom with/without charge, append_atom, "
+      "connect, append_bond with 0/1/2 foreign atoms, del_bond, del_atom by object/index/label/element incl. failing calls, "
+      "remove_substituent, add_implicit_hydrogens, substructure translation, cloning) for Aligned, KeepsGiven, BondsInside, "
+      "DeleteRemovesExactlyIncident, MovesExactlySelected, FailedIsNoOp.  Every (state, action) pair reached within the time "
+      "budget is replayed on a real Molecule and a real Structure; after each call the identity-keyed observation (atom "
+      "order, per-atom coordinate and charge tokens, array shapes and dtype, bond endpoints, parent/idx/get_atom_index) "
+      "must equal the model's.",
+      "small molecules only (bounds in the evidence); self-bonds/parallel bonds not generated; coordinates of library-placed "
+      "hydrogens are not compared; quick tier covers the pair set within a time budget (seeded order)",
+      "TLA+ spec (MolEdit) model-checked with TLC; spec->code replay of the transitions with identity-keyed projection",
+      "DESIGN.md 4/C05", modules=("MolEdit", "MCMolEdit"))
